@@ -183,8 +183,8 @@ HARNESSES = {
         "link_flags": ["-rdynamic"],
         "extra_targets": _rt_extra,
         "level": {"C09": "fault_enumeration"},
-        "quick": {"rc_cases": 1500, "rc_size": 40},
-        "thorough": {"rc_cases": 25000, "rc_size": 60},
+        "quick": {"rc_cases": 160, "rc_size": 40},
+        "thorough": {"rc_cases": 4000, "rc_size": 60},
     },
     "simcam": {
         "props": ["C17", "C18"],
